@@ -233,6 +233,43 @@ for idx in range(N_CTOR + N_DECO + N_INV, N_CTOR + N_DECO + N_INV + 30):
     errat = 1 + R.randrange(len(rgo))  # error placed before result errat-1 (never last)
     entries.append(dict(idx=idx, p=pir, r=rir, err=True, errat=errat, pgo=pgo, rgo=rgo, invoke=False, kind=kind))
 
+# Appended later still (indices >= 260): functions with TWO error results (the
+# second one last).
+for idx in range(N_CTOR + N_DECO + N_INV + 30, N_CTOR + N_DECO + N_INV + 44):
+    kind = "ctor" if idx < N_CTOR + N_DECO + N_INV + 40 else "deco"
+    if kind == "ctor":
+        pl = mk_params(R.choice([0, 1, 1, 2]))
+        pk = keyset_params(pl)
+        while True:
+            mark = len(structs)
+            rir, rgo = mk_results(idx, R.choice([1, 1, 2]))
+            rk = set()
+            dup = [False]
+            def walk(rs):
+                for r in rs:
+                    if r.get("isobj"):
+                        walk(r["obj"])
+                    else:
+                        k = (r["t"], r.get("name", ""), r.get("group", ""))
+                        if k in rk and not k[2]:
+                            dup[0] = True
+                        rk.add(k)
+            walk(rir)
+            if not (rk & pk) and not dup[0]:
+                break
+            del structs[mark:]
+        pir, pgo = encode_params(idx, pl)
+    else:
+        t = R.choice(TYPES)
+        k = dict(t=t)
+        pl = [dict(t=t)] + mk_params(R.choice([0, 1]), allow_group=False)
+        pir, pgo = encode_params(idx, pl)
+        rir, rgo = [rleaf(k)], [GO[t]]
+    errat = 0
+    if R.random() < 0.4:
+        errat = 1 + R.randrange(len(rgo))
+    entries.append(dict(idx=idx, p=pir, r=rir, err=True, errat=errat, err2=True, pgo=pgo, rgo=rgo, invoke=False, kind=kind))
+
 out = []
 out.append("// Code generated by /verif/tools/genbank.py; DO NOT EDIT.\n")
 out.append("package harness\n")
@@ -251,6 +288,8 @@ for e in entries:
     if e.get("errat"):
         rets = list(e["rgo"])
         rets.insert(e["errat"] - 1, "error")
+    if e.get("err2"):
+        rets.append("error")
     retsig = ""
     if len(rets) == 1:
         retsig = " " + rets[0]
@@ -277,7 +316,7 @@ out.append("var bankFactories = []func(rt *RT, f *Fn) interface{}{\n")
 for e in entries:
     out.append(f"\tbank{e['idx']},\n")
 out.append("}\n\n")
-specs = [dict(p=e["p"], r=e["r"], err=e["err"], errat=e.get("errat", 0), invoke=e["invoke"], kind=e["kind"]) for e in entries]
+specs = [dict(p=e["p"], r=e["r"], err=e["err"], errat=e.get("errat", 0), err2=bool(e.get("err2")), invoke=e["invoke"], kind=e["kind"]) for e in entries]
 out.append("// bankSpecsJSON describes the signature of every bank entry in IR form.\n")
 out.append("const bankSpecsJSON = `" + json.dumps(specs) + "`\n")
 open("/verif/harness/bank_gen.go", "w").write("".join(out))
